@@ -104,9 +104,18 @@ def run_case(case):
             plan = {"sched": case["sched"], "sched_seed": case["sseed"], "log_mode": "full", "umask": case["umask"], "pct_horizon": 500}
             if case["sched"] == "role":
                 plan["role_order"] = "dispatcher,walker,worker,copy,main"
+            if case["sseed"] % 5 == 0:
+                # one attribute cannot be stored (ENOTSUP once, as from a second filesystem somewhere inside the destination): that costs
+                # one file an attribute (a warning), not the files copied after it theirs
+                plan["rules"] = [{"id": "x", "sys": "fsetxattr", "under": root + "/", "action": "fault", "errno": 95, "nth": 1 + case["sseed"] % 3}]
             run = core.run_xcp(sb, case["args"], plan)
             events = run.events
+            if plan.get("rules") and run.verdict == "exited" and run.rule("x")["applied"]:
+                xattr_excused = 1
+                res["counters"]["runs-with-one-attribute-refused"] = 1
         t1 = time.time_ns()
+        xattr_excused = locals().get("xattr_excused", 0)
+        xattr_misses = []
         if run.verdict != "exited":
             res["inconc"].append("run-" + run.verdict)
             return res
@@ -139,7 +148,7 @@ def run_case(case):
                                         "what": "destination mode %04o != source mode %04o; %s" % (d["mode"], s["mode"], ctx)})
                 for k, v in s.get("xattrs", {}).items():
                     if k.startswith("user.") and d.get("xattrs", {}).get(k) != v:
-                        res["viol"].append({"sig": "%s:xattr" % sig0, "what": "xattr %s=%r not copied (dest has %r); %s" % (k, v, d.get("xattrs", {}).get(k), ctx)})
+                        xattr_misses.append((m["dst"], {"sig": "%s:xattr" % sig0, "what": "xattr %s=%r not copied (dest has %r); %s" % (k, v, d.get("xattrs", {}).get(k), ctx)}))
             else:
                 allowed = {0o666 & ~case["umask"]}
                 if old:
@@ -161,6 +170,11 @@ def run_case(case):
                 if (d["uid"], d["gid"]) != (s["uid"], s["gid"]):
                     res["viol"].append({"sig": "%s:owner" % sig0, "what": "owner %d:%d != source %d:%d; %s" % (d["uid"], d["gid"], s["uid"], s["gid"], ctx)})
             keys.add((case["driver"], ftag, sb_, bool(old), (s["uid"], s["gid"]) != (0, 0), case["fs"], case["sched"] + ("/unprivileged" if case.get("unpriv") else "")))
+        # (a refused attribute excuses the file it was refused on)
+        lacking = sorted({p_ for p_, _ in xattr_misses})
+        for p_, vi in xattr_misses:
+            if not (xattr_excused and len(lacking) <= 1):
+                res["viol"].append(vi)
         if events is not None:
             v, o = monitors.metadata_after_last_byte(events, root)
             for frag, msg in v:
